@@ -58,8 +58,8 @@ func c07ClientStep(throughSync bool) {
 	sr, cr := vf.U64("s_r"), vf.U64("c_r")
 	vf.Assume(vf.All(sr < 1<<62, cr < 1<<62))
 	maxL := 3
-	if vf.Tier() == 1 {
-		maxL = 4
+	if vf.Tier() == 1 && !throughSync {
+		maxL = 4 // (the variant through Client.Sync stays at 3: with 4 the solver ran into its cap on a loaded machine)
 	}
 	L := vf.Choice("window", maxL+1)
 	own := make([]bool, L)
